@@ -719,10 +719,13 @@ def real_pool_binding(chk, tier, d):
     chk.cov["real_pool_completion_order"] = dict(observed_runs=ooo_tried, runs_with_out_of_order_completion=ooo_seen,
                                                  note="observation by wrapping diagnostics.misorientation_index; evidence only")
     # externally supplied real pools (skipped by the implementation when Ray is present)
-    system, st, form = cases[0]
-    exp = expected_indices(st, system)
-    ext = [("process", 3), ("thread", 4)] if quick else [("process", 2), ("process", 5), ("process", 16), ("thread", 1), ("thread", 4)]
-    for kind, k in ext:
+    # (a thread pool runs its tasks in ONE address space: the equal-sized snapshots of the ndarray stacks are the case
+    #  in which two tasks of the same shape are in flight at the same time)
+    ext = [("process", 3, 0), ("thread", 4, 0), ("thread", 4, 2), ("thread", 3, 1)] if quick else [("process", 2, 0), ("process", 5, 0), ("process", 16, 2), ("thread", 1, 0), ("thread", 4, 0), ("thread", 4, 2), ("thread", 8, 2), ("thread", 3, 1)]
+    big = ("triclinic", make_stack([60] * 12, rng, ragged=False), "ndarray")
+    for kind, k, ci in ext:
+        system, st, form = big if (kind == "thread" and ci == 2) else cases[ci]
+        exp = expected_indices(st, system)
         pool = mp.get_context("fork").Pool(k) if kind == "process" else mpp.ThreadPool(k)
         try:
             exc, got = call_indices(st, system, pool=pool)
